@@ -126,8 +126,10 @@ pub fn work(acc: &mut Acc, g: G, shell: Shell) {
                 .stmts
                 .iter()
                 .map(|s| match s {
-                    Stmt::Call { name, expr } => Stmt::Call { name: name.clone(), expr: expr.fb_to_alt() },
-                    Stmt::Def { name, shell, expr } => Stmt::Def { name: name.clone(), shell: shell.clone(), expr: expr.fb_to_alt() },
+                    // descriptions are dropped from the `|` variant: which literal a group's
+                    // description reaches differs between `||` and `|`, and that is not matching
+                    Stmt::Call { name, expr } => Stmt::Call { name: name.clone(), expr: expr.fb_to_alt().without_descriptions() },
+                    Stmt::Def { name, shell, expr } => Stmt::Def { name: name.clone(), shell: shell.clone(), expr: expr.fb_to_alt().without_descriptions() },
                 })
                 .collect(),
         };
